@@ -131,7 +131,7 @@ class BSplineTransform(ParametricTransform, NonRigidTransform):
                     raise ValueError(
                         f"{type(self).__name__}.grid_() argument must have same size or new size '2n - 1'"
                     )
-        self._grid = grid
+        super().grid_(grid)
         if subdivide_dims:
             new_shape = (params.shape[0],) + self.data_shape
             new_params = U.subdivide_cubic_bspline(params, dims=subdivide_dims)
